@@ -121,12 +121,16 @@ func (d *Downstream) closeWithError(ctx context.Context, cause error) (err error
 	}
 
 	if beforeStatus != streamStatusResuming {
+		// resume replaces the channel: read it under the stream lock
+		d.mu.RLock()
+		finalAckFlushed := d.finalAckFlushed
+		d.mu.RUnlock()
 		select {
 		case <-d.ctx.Done():
 			d.logger.Warnf(ctx, "close parent conn")
 		case <-ctx.Done():
 			d.logger.Warnf(ctx, "final ack flush dead line elapsed")
-		case <-d.finalAckFlushed:
+		case <-finalAckFlushed:
 		}
 	}
 
@@ -263,7 +267,10 @@ func (d *Downstream) run() error {
 func (d *Downstream) flushAckLoop(ctx context.Context) {
 	ticker := time.NewTicker(d.ackFlushInterval)
 	defer ticker.Stop()
-	defer close(d.finalAckFlushed)
+	d.mu.RLock()
+	finalAckFlushed := d.finalAckFlushed
+	d.mu.RUnlock()
+	defer close(finalAckFlushed)
 	defer d.flushAck()
 	ctx, cancel := context.WithCancel(ctx)
 	defer cancel()
@@ -603,10 +610,12 @@ func (d *Downstream) resume(parentConn *Conn, wireConn *wire.ClientConn, generat
 			return true
 		}
 		resErr = nil
+		d.mu.Lock()
 		d.dpsCh = dpsCh
 		d.ackCompCh = ackCompCh
 		d.metaCh = metaCh
 		d.finalAckFlushed = make(chan struct{})
+		d.mu.Unlock()
 
 		return true
 	})
